@@ -469,6 +469,7 @@ class Judge:
         self.first = {}            # canonical key -> (prog, form, step) of the first example
         self.pending = []          # violations to confirm alone: (key, what, case)
         self.oracle_doubt = []
+        self.diffs = []
 
     def program(self, prog, outs, origin):
         self.stats["programs"] += 1
@@ -502,6 +503,10 @@ class Judge:
                     continue
                 got = s["got"][fm]
                 self.stats["real_equals_model_0230" if real == got else "real_differs_from_model_0230"] += 1
+                if real != got and len(self.diffs) < 6:
+                    self.diffs.append({"placement": prog.p, "hint": prog.h, "form": fm, "statement": i, "real": real,
+                                       "model_0230": got, "allowed": sorted(want), "origin": origin,
+                                       "source": render(prog, fm)})
                 if real == "fwdref":
                     raised[s["f"]] = True
                 elif raised.get(s["f"]) and "fwdref" not in want and real in want:
@@ -521,7 +526,9 @@ class Judge:
         bl = s["blame"][fm]
         route = next((r for r in (bl["a"], bl["b"]) if r), "")
         if real == got and route:
-            key = {"placement": prog.p, "route": route, "symptom": symptom}
+            key = {"placement": prog.p, "route": route,
+                   "symptom": "unbound-name-no-exception" if wverd == "fwdref" else
+                              ("bound-name-exception" if real == "fwdref" else "wrong-class")}
             why = ROUTE_TEXT.get(route, route)
         else:
             key = {"placement": prog.p, "hint": prog.h, "form": fm, "real": real, "allowed": sorted(want),
@@ -708,10 +715,12 @@ def run(rep, tier, seed):
             progs.append(p)
             origin.append(f"TLC counterexample of the switch {sw}")
         if quick:
-            batches = [("cls", class_pl, ALL_HINTS, 6, 2, 2), ("fun", fun_pl, ["N", "list", "tuple"], 7, 2, 2)]
+            batches = [("cls", class_pl, ["N", "tuple", "Self"], 5, 2, 2), ("fun", fun_pl, ["N", "list"], 6, 2, 2),
+                       ("fun2", ["closure"], ["N", "list"], 7, 2, 1)]
             sims = [("all", ALL_PLACEMENTS, ALL_HINTS, 11, 4, 4, 600)]
         else:
-            batches = [("cls", class_pl, ALL_HINTS, 8, 3, 2), ("fun", fun_pl, ["N", "list", "opt", "dict", "tuple"], 8, 2, 2)]
+            batches = [("cls", class_pl, ALL_HINTS, 7, 2, 2), ("fun", fun_pl, ["N", "list", "opt", "dict", "tuple"], 7, 2, 2),
+                       ("fun2", fun_pl, ["N", "list", "tuple"], 8, 2, 1)]
             sims = [("all", ALL_PLACEMENTS, ALL_HINTS, 14, 5, 5, 6000), ("fun", fun_pl, ALL_HINTS, 14, 5, 5, 4000)]
         for label, pls, hints, steps, defs, calls in batches:
             ps = _graph_programs(rep, d, label, pls, hints, steps, defs, calls)
@@ -740,6 +749,8 @@ def run(rep, tier, seed):
         for k, v in judge.stats.items():
             rep.add(k, v)
         rep.cov["model_routes_exercised"] = dict(judge.routes)
+        if judge.diffs:
+            rep.cov["model_0230_differences"] = judge.diffs
         # non-vacuity of the replay
         st = judge.stats
         for k in ("want_fwdref_only", "want_either", "defined_later_resolved", "usable_after_fwdref", "ev_compared",
